@@ -16,6 +16,9 @@ mod c17;
 mod c16;
 mod c14;
 mod jsonmut;
+mod fmt;
+mod fieldspec;
+mod fields;
 
 use std::collections::HashMap;
 
@@ -66,6 +69,7 @@ fn main() {
         "c16" => c16::run(&o),
         "c14" => c14::run(&o),
         "c09" => c01::run_c09(&o),
+        "fields" => fields::run(&o),
         other => {
             eprintln!("unknown stream {other}");
             std::process::exit(2);
